@@ -6,6 +6,7 @@ CONSTANTS
   HasHf = FALSE
   Absent0 <- AbsMid
   Admin = TRUE
+  TrackRep = FALSE
   AlwaysW = TRUE
   AlwaysPRs = TRUE
   Cmds = {}
